@@ -634,6 +634,117 @@ def writers(fn):
     return W
 
 
+def is_initialiser(fn, src):
+    """A method whose ONLY stores into the state dicts are `self.__z = {}` and `self.__zOld = {}`
+    (both, plain assignments of an empty dict): same effect as __init__ on the material history."""
+    got = {}
+    for n in ast.walk(fn):
+        if isinstance(n, (ast.AugAssign, ast.Delete)):
+            tg = [n.target] if isinstance(n, ast.AugAssign) else n.targets
+            if any((_attr_chain(t if not isinstance(t, ast.Subscript) else t.value) or "").startswith("self.__z") for t in tg):
+                return False
+        if isinstance(n, (ast.Assign, ast.AnnAssign)):
+            tgts = n.targets if isinstance(n, ast.Assign) else [n.target]
+            for t in tgts:
+                for e in (t.elts if isinstance(t, ast.Tuple) else [t]):
+                    base = e
+                    while isinstance(base, ast.Subscript):
+                        base = base.value
+                    c = _attr_chain(base) or ""
+                    if c in ("self.__z", "self.__zOld"):
+                        v = n.value
+                        empty = (isinstance(v, ast.Dict) and not v.keys) or (isinstance(v, ast.Call) and _attr_chain(v.func) == "dict" and not v.args and not v.keywords)
+                        if e is not base or isinstance(t, ast.Tuple) or not empty:
+                            return False
+                        got[c] = got.get(c, 0) + 1
+    w = {x for x in writers(fn) if x.startswith("self.__z")}
+    return got.keys() == {"self.__z", "self.__zOld"} and w == {"self.__z", "self.__zOld"}
+
+
+def memo_properties(cls, src):
+    """Methods of a class that are pure memos keyed by their input:
+
+        K = <key expression>
+        c = self.<attr>
+        if c is None or not np.array_equal(c[0], K):      (or  c[0] != K)
+            c = (K, <value>)
+            self.<attr> = c
+        return c[1]
+
+    i.e. the only attribute written is a (key, value) pair, and it is re-used only after its key
+    has been compared with the CURRENT value of the same key expression.  Returns
+    {method: {"attr", "key", "value"}}; anything that deviates is simply not a memo."""
+    out = {}
+    for fn in cls.body:
+        if not isinstance(fn, ast.FunctionDef):
+            continue
+        stores = [n for n in ast.walk(fn) if isinstance(n, (ast.Assign, ast.AugAssign, ast.AnnAssign, ast.Delete))
+                  and any((_attr_chain(t if not isinstance(t, ast.Subscript) else t.value) or "").startswith("self.")
+                          for t in (n.targets if isinstance(n, (ast.Assign, ast.Delete)) else [n.target]))]
+        if len(stores) != 1 or not isinstance(stores[0], ast.Assign):
+            continue
+        st = stores[0]
+        if len(st.targets) != 1 or not isinstance(st.targets[0], ast.Attribute) or not isinstance(st.value, ast.Name):
+            continue
+        attr = _attr_chain(st.targets[0])
+        cname = st.value.id
+        body = [b for b in fn.body if not (isinstance(b, ast.Expr) and isinstance(b.value, ast.Constant))]
+        # locate: K = expr ; c = self.attr ; if ...: c = (K, v); self.attr = c ; return c[1]
+        binds = {}
+        ifs = [b for b in body if isinstance(b, ast.If)]
+        guard = [b for b in ifs if st in b.body]
+        if len(guard) != 1:
+            continue
+        g = guard[0]
+        for b in body[:body.index(g)]:
+            if isinstance(b, ast.Assign) and len(b.targets) == 1 and isinstance(b.targets[0], ast.Name):
+                binds[b.targets[0].id] = b.value
+        if cname not in binds or _attr_chain(binds[cname]) != attr or g.orelse:
+            continue
+        gb = g.body
+        if len(gb) != 2 or gb[1] is not st or not (isinstance(gb[0], ast.Assign) and isinstance(gb[0].targets[0], ast.Name) and gb[0].targets[0].id == cname
+                                                       and isinstance(gb[0].value, ast.Tuple) and len(gb[0].value.elts) == 2 and isinstance(gb[0].value.elts[0], ast.Name)):
+            continue
+        kname = gb[0].value.elts[0].id
+        if kname not in binds or kname == cname:
+            continue
+        # guard: `c is None or not <eq>(c[0], K)`
+        t = g.test
+        ok = False
+        if isinstance(t, ast.BoolOp) and isinstance(t.op, ast.Or) and len(t.values) == 2:
+            a, b2 = t.values
+            isnone = (isinstance(a, ast.Compare) and isinstance(a.left, ast.Name) and a.left.id == cname and len(a.ops) == 1
+                      and isinstance(a.ops[0], ast.Is) and isinstance(a.comparators[0], ast.Constant) and a.comparators[0].value is None)
+
+            def key0(n):
+                return (isinstance(n, ast.Subscript) and isinstance(n.value, ast.Name) and n.value.id == cname
+                        and isinstance(n.slice, ast.Constant) and n.slice.value == 0)
+
+            def isK(n):
+                return isinstance(n, ast.Name) and n.id == kname
+            differs = False
+            if isinstance(b2, ast.UnaryOp) and isinstance(b2.op, ast.Not) and isinstance(b2.operand, ast.Call) and _attr_chain(b2.operand.func) in ("np.array_equal", "numpy.array_equal") and len(b2.operand.args) == 2:
+                x, y = b2.operand.args
+                differs = (key0(x) and isK(y)) or (key0(y) and isK(x))
+            ok = isnone and differs
+        if not ok:
+            continue
+        # the key variable must not be re-bound between its binding and the guard, and the method
+        # must return c[1]
+        rets = [n for n in ast.walk(fn) if isinstance(n, ast.Return)]
+        last = body[-1]
+        if not (isinstance(last, ast.Return) and isinstance(last.value, ast.Subscript) and isinstance(last.value.value, ast.Name) and last.value.value.id == cname
+                and isinstance(last.value.slice, ast.Constant) and last.value.slice.value == 1):
+            continue
+        # every other return happens BEFORE the cache is touched
+        early_ok = all(r is last or r.lineno < g.lineno for r in rets)
+        rebinding = sum(1 for n in ast.walk(fn) if isinstance(n, ast.Assign) and any(isinstance(t2, ast.Name) and t2.id == kname for t2 in n.targets))
+        if not early_ok or rebinding != 1:
+            continue
+        out[fn.name] = {"attr": attr, "key": ast.get_source_segment(src, binds[kname]), "value": ast.get_source_segment(src, gb[0].value.elts[1]), "line": fn.lineno}
+    return out
+
+
 def read_state_writers(repo):
     tree, src, rel = parse(repo, "EasyFEA/Simulations/_inelastic.py")
     cls = [n for n in tree.body if isinstance(n, ast.ClassDef) and n.name == "InElastic"]
@@ -645,6 +756,7 @@ def read_state_writers(repo):
             w = {x for x in writers(fn) if x.startswith("self.__z")}
             if w:
                 sim[fn.name] = sorted(w)
+    initialisers = sorted(fn.name for fn in cls[0].body if isinstance(fn, ast.FunctionDef) and fn.name in sim and is_initialiser(fn, src))
     btree, bsrc, brel = parse(repo, "EasyFEA/Models/InElastic/_behavior.py")
     bcls = [n for n in btree.body if isinstance(n, ast.ClassDef) and n.name == "Behavior"][0]
     beh = {}
@@ -663,7 +775,25 @@ def read_state_writers(repo):
                 if full.startswith("self.") and fn.name != "__init__":
                     w.add(x)
             beh[fn.name] = sorted(w)
-    return {"sim": sim, "behavior": beh, "sim_file": rel, "beh_file": brel}
+    # pure memos: accepted attribute writes, provided the memo attribute is touched nowhere else
+    # (besides its initialisation to None in __init__)
+    memos = memo_properties(bcls, bsrc)
+    accepted = {}
+    for m, info in memos.items():
+        attr = info["attr"].split(".", 1)[1]
+        clean = True
+        for fn in bcls.body:
+            if not isinstance(fn, ast.FunctionDef) or fn.name == m:
+                continue
+            for n in ast.walk(fn):
+                if isinstance(n, ast.Attribute) and n.attr == attr:
+                    if fn.name == "__init__" and isinstance(n.ctx, ast.Store):
+                        continue
+                    clean = False
+        if clean and beh.get(m) == [info["attr"]]:
+            accepted[m] = info
+            beh[m] = []
+    return {"sim": sim, "behavior": beh, "sim_file": rel, "beh_file": brel, "initialisers": initialisers, "memos": accepted}
 
 
 def rebinds_before_store(repo):
@@ -731,10 +861,222 @@ def read_spectral_flag(repo):
     fail(ret[0], "unrecognised convergence flag `%s`" % seg, rel)
 
 
+def read_tangent(repo):
+    """_spectral.Tangent, reduced to its eigen-coordinate core.
+
+    Objects are tracked in factored form (T, Ti, C constant maps; lower-case = per-component
+    expressions in lam, y, d and the scalars of `res`):
+        T @ v                      -> ("Tv", v)          Ti.T @ v  -> ("TiTv", v)
+        C @ (Ti.T @ v)             -> ("CTiTv", v)
+        (T * d[..., None, :]) @ (Ti @ C)   -> ("TDTiC", d)
+        TensorProd(s * (T @ a), C @ (Ti.T @ b)) = T (s a (x) b) Ti C   (C symmetric) -> ("TabTiC", s*a, b)
+    so that  C_alg = T [ diag(dd) + a (x) b ] Ti C ;  returns dd, a, b."""
+    tree, src, rel = parse(repo, "EasyFEA/Models/InElastic/_spectral.py")
+    fn = find_func(tree, "Tangent")
+    params = [a.arg for a in fn.args.args]
+    if params != ["eigen", "res", "C_e_pg"]:
+        fail(fn, "Tangent(eigen, res, C_e_pg) expected", rel)
+    S = Sym(src, rel, {}, [])
+    attr = {"eigen.lam": ("v", "lam"), "res.d": ("v", "d"), "res.y": ("v", "y"), "res.phi": ("v", "phi"), "res.theta": ("v", "theta"),
+            "res.slope": ("v", "slope"), "res.drdtheta": ("v", "drdtheta"), "res.active": ("b", "active")}
+    obj = {}      # name -> factored object
+
+    def field(n):
+        """_Field(eigen.T | eigen.Ti | eigen.Ti.T, <anything>) -> 'T' | 'Ti' | 'TiT'"""
+        if isinstance(n, ast.Call) and S_dotted(n.func) == "_Field" and len(n.args) == 2:
+            return {"eigen.T": "T", "eigen.Ti": "Ti", "eigen.Ti.T": "TiT"}.get(S_dotted(n.args[0]))
+        return None
+
+    class TS(Sym):
+        def ex(self, n):
+            d = S_dotted(n)
+            if d in attr:
+                return attr[d]
+            return Sym.ex(self, n)
+    S.__class__ = TS
+
+    def scal(n):
+        return S.ex(n)
+
+    def evalobj(n):
+        if isinstance(n, ast.Name) and n.id in obj:
+            return obj[n.id]
+        if isinstance(n, ast.Name) and n.id == "C_e_pg":
+            return ("C",)
+        if isinstance(n, ast.BinOp) and isinstance(n.op, ast.MatMult):
+            f = field(n.left)
+            if f == "T":
+                return ("Tv", scal(n.right))
+            if f == "TiT":
+                return ("TiTv", scal(n.right))
+            if f == "Ti" and isinstance(n.right, ast.Name) and n.right.id == "C_e_pg":
+                return ("TiC",)
+            L = evalobj(n.left)
+            R = evalobj(n.right)
+            if L == ("C",) and R[0] == "TiTv":
+                return ("CTiTv", R[1])
+            if L[0] == "Tdiag" and R == ("TiC",):
+                return ("TDTiC", L[1])
+            fail(n, "matrix product of %s and %s" % (L[0], R[0]), rel)
+        if isinstance(n, ast.BinOp) and isinstance(n.op, ast.Mult):
+            # T * d[..., None, :]   (scale the columns of T)   or   scalar * (T @ v)
+            if field(n.left) == "T" and isinstance(n.right, ast.Subscript) and (ast.get_source_segment(src, n.right) or "").replace(" ", "").endswith("[...,None,:]"):
+                return ("Tdiag", scal(n.right.value))
+            try:
+                R = evalobj(n.right)
+            except TranslateError:
+                R = None
+            if R is not None and R[0] == "Tv":
+                return ("Tv", ("*", scal(n.left), R[1]))
+            fail(n, "product in Tangent", rel)
+        if isinstance(n, ast.BinOp) and isinstance(n.op, ast.Div):
+            L = evalobj(n.left)
+            if L[0] == "TiTv":
+                return ("TiTv", ("/", L[1], scal(n.right)))
+            fail(n, "quotient in Tangent", rel)
+        if isinstance(n, ast.BinOp) and isinstance(n.op, ast.Add):
+            L, R = evalobj(n.left), evalobj(n.right)
+            if L[0] == "TDTiC" and R[0] == "TabTiC":
+                return ("CORE", L[1], R[1], R[2])
+            if R[0] == "TDTiC" and L[0] == "TabTiC":
+                return ("CORE", R[1], L[1], L[2])
+            fail(n, "sum of %s and %s" % (L[0], R[0]), rel)
+        if isinstance(n, ast.Call) and S_dotted(n.func) == "TensorProd" and len(n.args) == 2:
+            A, B = evalobj(n.args[0]), evalobj(n.args[1])
+            if A[0] == "Tv" and B[0] == "CTiTv":
+                return ("TabTiC", A[1], B[1])
+            fail(n, "TensorProd of %s and %s" % (A[0], B[0]), rel)
+        fail(n, "object expression %s" % type(n).__name__, rel)
+
+    result = None
+    for st in fn.body:
+        if isinstance(st, ast.Expr) and isinstance(st.value, ast.Constant):
+            continue
+        if isinstance(st, ast.Assign) and len(st.targets) == 1 and isinstance(st.targets[0], ast.Tuple) and isinstance(st.value, ast.Tuple):
+            for t, v in zip(st.targets[0].elts, st.value.elts):
+                S.env[t.id] = S.ex(v)
+            continue
+        if isinstance(st, ast.Assign) and len(st.targets) == 1 and isinstance(st.targets[0], ast.Name):
+            nm = st.targets[0].id
+            try:
+                S.env[nm] = S.ex(st.value)
+                continue
+            except TranslateError:
+                pass
+            obj[nm] = evalobj(st.value)
+            continue
+        if isinstance(st, ast.Return):
+            v = st.value
+            ok = (isinstance(v, ast.Call) and S_dotted(v.func) == "np.where" and len(v.args) == 3
+                  and (ast.get_source_segment(src, v.args[0]) or "").replace(" ", "") == "res.active[...,None,None]"
+                  and isinstance(v.args[2], ast.Name) and v.args[2].id == "C_e_pg")
+            if not ok:
+                fail(st, "Tangent must return np.where(res.active[..., None, None], C_alg, C_e_pg)", rel)
+            result = evalobj(v.args[1])
+            continue
+        fail(st, "statement %s in Tangent" % type(st).__name__, rel)
+    if result is None or result[0] != "CORE":
+        raise TranslateError("%s: Tangent does not reduce to T [diag + a (x) b] Ti C" % rel)
+    return {"diag": result[1], "a": result[2], "b": result[3], "line": fn.lineno, "file": rel}
+
+
+class SymSub(Sym):
+    """Sym that also resolves subscripted fields (`x[..., ZZ]`) through a table of source texts."""
+
+    def __init__(self, src, fname, table):
+        Sym.__init__(self, src, fname, {}, [])
+        self.table = table
+
+    def ex(self, n):
+        if isinstance(n, ast.Subscript):
+            seg = (ast.get_source_segment(self.src, n) or "").replace(" ", "")
+            if seg in self.table:
+                return self.table[seg]
+            fail(n, "subscript %s" % seg, self.fname)
+        return Sym.ex(self, n)
+
+
+def read_plane_stress(repo):
+    """Behavior.__Plane_stress_strain: the break test must be `np.max(<per-point quantity>) < tol`
+    (a maximum over the field of a per-point expression), the update a per-point expression."""
+    tree, src, rel = parse(repo, "EasyFEA/Models/InElastic/_behavior.py")
+    fn = find_func(tree, "__Plane_stress_strain", "Behavior")
+    params = [a.arg for a in fn.args.args]
+    if len(params) != 4:
+        fail(fn, "__Plane_stress_strain(self, eps6, zOld, dt) expected", rel)
+    eps_name = params[1]
+    loops = [st for st in fn.body if isinstance(st, ast.For)]
+    if len(loops) != 1 or any(isinstance(n, (ast.For, ast.While)) for st in loops[0].body for n in ast.walk(st)):
+        fail(fn, "exactly one (un-nested) loop expected", rel)
+    loop = loops[0]
+    if (ast.get_source_segment(src, loop.iter) or "").replace(" ", "") != "range(self._maxIter)":
+        fail(loop, "loop header", rel)
+    if not (len(loop.orelse) == 1 and isinstance(loop.orelse[0], ast.Raise)):
+        fail(loop, "the loop must raise when it runs out of iterations (for/else)", rel)
+    # the strain is copied before it is written
+    copied = any(isinstance(st, ast.Assign) and isinstance(st.targets[0], ast.Name) and st.targets[0].id == eps_name
+                 and (ast.get_source_segment(src, st.value) or "").replace(" ", "") == eps_name + ".copy()" for st in fn.body[:fn.body.index(loop)])
+    if not copied:
+        fail(fn, "%s must be copied before the loop" % eps_name, rel)
+    ret = [st for st in fn.body if isinstance(st, ast.Return)]
+    if len(ret) != 1 or not (isinstance(ret[0].value, ast.Name) and ret[0].value.id == eps_name):
+        fail(fn, "must return the strain it iterated on", rel)
+    S = None
+    res = {}
+    stage = 0
+    for st in loop.body:
+        if isinstance(st, ast.Expr) and isinstance(st.value, ast.Constant):
+            continue
+        if stage == 0:
+            ok = (isinstance(st, ast.Assign) and isinstance(st.targets[0], ast.Tuple) and isinstance(st.value, ast.Call)
+                  and (S_dotted(st.value.func) or "").endswith("__Integrate_3d") and len(st.value.args) == 3
+                  and isinstance(st.value.args[0], ast.Name) and st.value.args[0].id == eps_name
+                  and isinstance(st.value.args[1], ast.Name) and st.value.args[1].id == params[2])
+            if not ok or len(st.targets[0].elts) != 4 or not all(isinstance(e, ast.Name) for e in st.targets[0].elts[:2]):
+                fail(st, "the loop must start with sig, C, _, _ = self.__Integrate_3d(%s, %s, dt)" % (eps_name, params[2]), rel)
+            sig, C = st.targets[0].elts[0].id, st.targets[0].elts[1].id
+            table = {"%s[...,ZZ]" % sig: ("v", "r"), "%s[...,ZZ,ZZ]" % C: ("v", "czz"), "%s[...,ZZ]" % eps_name: ("v", "ezz")}
+            S = SymSub(src, rel, table)
+            S.env = {"tol": ("v", "tol")}
+            stage = 1
+            continue
+        if isinstance(st, ast.Assign) and len(st.targets) == 1 and isinstance(st.targets[0], ast.Name):
+            if st.targets[0].id in (eps_name, "tol"):
+                fail(st, "re-binding of %s inside the loop" % st.targets[0].id, rel)
+            S.env[st.targets[0].id] = S.ex(st.value)
+        elif isinstance(st, ast.If) and len(st.body) == 1 and isinstance(st.body[0], ast.Break) and not st.orelse:
+            if "small" in res or "update" in res:
+                fail(st, "the break test must come once, before the update", rel)
+            t = S.ex(st.test)
+            if not (t[0] == "lt" and t[1][0] == "allmax") or "allmax" in repr(t[1][1]) or "allmax" in repr(t[2]):
+                fail(st, "break test `%s` is not `np.max(<per-point quantity>) < bound`: it does not bound every point of the field" % ast.get_source_segment(src, st.test), rel)
+            res["small"] = ("lt", t[1][1], t[2])
+        elif isinstance(st, ast.Assign) and len(st.targets) == 1 and isinstance(st.targets[0], ast.Subscript):
+            seg = (ast.get_source_segment(src, st.targets[0]) or "").replace(" ", "")
+            if seg != "%s[...,ZZ]" % eps_name or "update" in res:
+                fail(st, "store into %s" % seg, rel)
+            res["update"] = S.ex(st.value)
+        else:
+            fail(st, "statement %s in the plane-stress loop" % type(st).__name__, rel)
+    if "small" not in res or "update" not in res:
+        raise TranslateError("%s: plane-stress loop needs a break test and an eps_zz update" % rel)
+    res.update(line=fn.lineno, file=rel)
+    return res
+
+
+def S_dotted(node):
+    if isinstance(node, ast.Name):
+        return node.id
+    if isinstance(node, ast.Attribute):
+        b = S_dotted(node.value)
+        return None if b is None else b + "." + node.attr
+    return None
+
+
 def read_all(repo):
     return {"phi": read_phi(repo), "solve": read_solve(repo), "yield": read_yield(repo),
             "writers": read_state_writers(repo), "arg_stores": rebinds_before_store(repo),
-            "flag": read_spectral_flag(repo)}
+            "flag": read_spectral_flag(repo), "ps": read_plane_stress(repo), "tangent": read_tangent(repo)}
 
 
 def emit_coq(T):
@@ -773,6 +1115,16 @@ def emit_coq(T):
     a = so["norate"]["active"]
     L.append(define("gen_active", a, ["phi0", "pOld", "sigma_y", "hR"], ret="bool"))
     L.append(define("gen_sig_eig", so["norate"]["sig_eig"], ["y", "lam", "theta"]))
+    ps = T["ps"]
+    L.append("(* Behavior.__Plane_stress_strain, %s line %d: per-point break test and eps_zz update *)" % (ps["file"], ps["line"]))
+    L.append(define("gen_ps_small", ps["small"], ["r", "tol"], ret="bool"))
+    L.append(define("gen_ps_update", ps["update"], ["ezz", "r", "czz"]))
+    tg = T["tangent"]
+    L.append("(* _spectral.Tangent, %s line %d:  C_alg = T [diag(dd) + a (x) b] Ti C  at active points *)" % (tg["file"], tg["line"]))
+    L.append(define("gen_tan_diag", tg["diag"], ["d"]))
+    L.append(define("gen_tan_a", tg["a"], ["lam", "y", "d", "theta", "slope", "drdtheta", "active"]))
+    L.append(define("gen_tan_b", tg["b"], ["lam", "y", "d", "phi"]))
+    L.append(define("gen_ret_d", so["norate"]["ret_d"], ["lam", "theta"]))
     y = T["yield"]
 
     def mat(M, sym=False):
